@@ -25,3 +25,29 @@ Lemma real_media_ok :
   forallb exact_box (seq_of rf_media_seg) = true /\ bytes_ok rf_media_seg = true /\
   encode_seq false (seq_of rf_media_seg) = Ok rf_media_seg.
 Proof. vm_compute. repeat split. Qed.
+
+(* typed (not MUnknown) leaves with a given name somewhere in a tree *)
+Fixpoint count_leaf (n : list N) (t : mbox) : nat :=
+  match t with
+  | MLeaf _ l _ => if bytes_eqb (leaf_name l) n then 1%nat else 0%nat
+  | MCont _ cs => fold_right (fun c a => (count_leaf n c + a)%nat) 0%nat cs
+  | MUnknown _ _ => 0%nat
+  | MPre _ _ _ cs => fold_right (fun c a => (count_leaf n c + a)%nat) 0%nat cs
+  end.
+Definition count_leaves (n : list N) (ts : list mbox) : nat := fold_right (fun c a => (count_leaf n c + a)%nat) 0%nat ts.
+
+(* mp4/testdata/aac_init.mp4: ftyp skip moov{... stsd{mp4a{esds}} ...}: the esds descriptor tree is decoded by the model *)
+Lemma real_init_aac_ok :
+  decode_file rf_init_aac = Ok (seq_of rf_init_aac) /\ names_of (seq_of rf_init_aac) = [n_ftyp; n_skip; n_moov] /\
+  forallb exact_box (seq_of rf_init_aac) = true /\ flat_map why_box (seq_of rf_init_aac) = [] /\
+  count_leaves n_esds (seq_of rf_init_aac) = 1%nat /\ bytes_ok rf_init_aac = true /\
+  encode_seq false (seq_of rf_init_aac) = Ok rf_init_aac.
+Proof. vm_compute. repeat split. Qed.
+
+(* mp4/testdata/hvc1_init.mp4: ftyp moov{... stsd{hvc1{hvcC ...}} ...}: the HEVC decoder configuration record is decoded *)
+Lemma real_init_hvc1_ok :
+  decode_file rf_init_hvc1 = Ok (seq_of rf_init_hvc1) /\ names_of (seq_of rf_init_hvc1) = [n_ftyp; n_moov] /\
+  forallb exact_box (seq_of rf_init_hvc1) = true /\ flat_map why_box (seq_of rf_init_hvc1) = [] /\
+  count_leaves n_hvcC (seq_of rf_init_hvc1) = 1%nat /\ bytes_ok rf_init_hvc1 = true /\
+  encode_seq false (seq_of rf_init_hvc1) = Ok rf_init_hvc1.
+Proof. vm_compute. repeat split. Qed.
